@@ -223,22 +223,31 @@ structure MFile where
   manifest : Manifest
   threshold : Int
   ext : Nat
+  pos : Nat          -- offset of the file descriptor `fp`: where the next `fp.Write` lands
 deriving DecidableEq
+
+/-- `fp.Write(b)` with the descriptor at offset `pos`: a write beyond the end of the file leaves a
+    hole of zero bytes, a write inside it overwrites. -/
+def writeAt (file : Bytes) (pos : Nat) (b : Bytes) : Bytes :=
+  file.take pos ++ List.replicate (pos - file.length) 0 ++ b ++ file.drop (pos + b.length)
 
 /-- `helpOpenOrCreateManifestFile` when no MANIFEST exists. -/
 def MFile.create (cd : Codec) (ext : Nat) (threshold : Int) : MFile :=
   { file := rewriteFile cd ext Manifest.empty
     manifest := Manifest.empty.clone cd
-    threshold, ext }
+    threshold, ext
+    pos := (rewriteFile cd ext Manifest.empty).length }     -- helpRewrite: Seek(0, io.SeekEnd)
 
 /-- `helpOpenOrCreateManifestFile` on an existing MANIFEST (read-write): replay, truncate at
-    the returned offset, keep a clone. Returns the replayed manifest as well. -/
+    the returned offset, **seek to the new end of the file** (replay has left the descriptor at the
+    old end; without the `Seek(0, io.SeekEnd)` the next append would land beyond a hole of zeros),
+    keep a clone. Returns the replayed manifest as well. -/
 def MFile.openExisting (cd : Codec) (file : Bytes) (ext : Nat) (threshold : Int) :
     Except ReplayErr (MFile × Manifest) :=
   match replay cd file ext with
   | .error e => .error e
   | .ok (m, off) =>
-    .ok ({ file := file.take off, manifest := m.clone cd, threshold, ext }, m)
+    .ok ({ file := file.take off, manifest := m.clone cd, threshold, ext, pos := (file.take off).length }, m)
 
 /-- The rewrite rule of `addChanges`. -/
 def shouldRewrite (m : Manifest) (threshold : Int) : Bool :=
@@ -254,8 +263,10 @@ def MFile.addChanges (cd : Codec) (mf : MFile) (cs : ChangeSet) : MFile × Optio
     if shouldRewrite m' mf.threshold then
       -- rewrite(): helpRewrite, then Creations = len(Tables), Deletions = 0
       ({ mf with file := rewriteFile cd mf.ext m'
-                 manifest := { m' with creations := m'.tables.length, deletions := 0 } }, none)
+                 manifest := { m' with creations := m'.tables.length, deletions := 0 }
+                 pos := (rewriteFile cd mf.ext m').length }, none)
     else
-      ({ mf with file := mf.file ++ frame cd buf, manifest := m' }, none)
+      ({ mf with file := writeAt mf.file mf.pos (frame cd buf), manifest := m'
+                 pos := mf.pos + (frame cd buf).length }, none)
 
 end Badger
